@@ -287,12 +287,16 @@ ERRCLASS = {"syntax": 1, "unexpected": 2, "neglimit": 3, "negoffset": 4, "invali
             "ambiguousgroupby": 6, "atoi": 7, "avg": 8, "tmpunsupported": 9, "unsupportedtoken": 10, "other": 11}
 
 
+UNREP = []          # Go trees that Model/Ast.v could not express (reported in the evidence)
+
+
 def gout_term(out):
     k = out["k"]
     if k == "ok":
         try:
             return "(GOk %s)" % stmt_term(out["ast"])
-        except Unrep:
+        except Unrep as e:
+            UNREP.append(str(e)[:200])
             return "GUnrep"
     if k == "err":
         return "(GErr %d)" % ERRCLASS[out["e"]]
